@@ -55,7 +55,7 @@ def ref(src):
                         k = run(i + 2, digs)
                         if k is not None: val = int(line[i + 2:k].replace('_', ''), base); break
                 if val is None:
-                    k = run(i, '0123456789'); val = int(line[i:k].replace('_', ''))
+                    k = run(i, '0123456789'); val = dec_value(line[i:k].replace('_', ''))
                 out.append((T.IntToken(val), ln, i, k)); i = k; continue
             if c in '"\'':
                 q = c; j = i + 1; data = bytearray()
@@ -97,6 +97,19 @@ def ref(src):
                 i = j; continue
             raise Err('bad char')
     return out
+def dec_value(digits):
+    """value of a decimal digit string of any length (int() refuses more than 4300 digits under CPython >= 3.11)"""
+    v = 0
+    for a in range(0, len(digits), 1000):
+        chunk = digits[a:a + 1000]
+        v = v * 10 ** len(chunk) + int(chunk)
+    return v
+def safe(x, n=300):
+    try: return str(x)[:n]
+    except ValueError: return '<token list with an integer of more than 4300 digits>'
+def has_huge_decimal(src):
+    import re
+    return any(len(m.replace('_', '')) > 4300 for m in re.findall(r'(?<![0-9A-Za-z_])[0-9][0-9_]*', src))
 def real(src):
     return [(lx.token, lx.span.start.line, lx.span.start.col, lx.span.end.col) for lx in lex(SourceCode.from_string(src))]
 def cmp(src):
@@ -106,5 +119,7 @@ def cmp(src):
     except LexerError: r = None
     except Exception as ex:      # anything else escaping the lexer is an internal error, never a legitimate outcome
         r = 'INTERNAL %s: %s' % (type(ex).__name__, ex)
+    if r is None and e is not None and has_huge_decimal(src):
+        return None     # a decimal literal beyond int()'s digit limit is a located diagnostic by design of the repair (daf8277)
     if (e is None) != (r is None) or (e is not None and e != r):
         return (src, e, r)
